@@ -131,14 +131,9 @@ static std::string voxel_str(const World& w, size_t j)
   return "(z" + vmc::str(z) + ",y" + vmc::str(y) + ",x" + vmc::str(x) + ")";
 }
 
-static bool setup_world(World& w)
+// creates the matrix and the (not yet set up) pair of w.pc
+static void new_pair(World& w)
 {
-  std::string what;
-  if (small::throws([&] { w.b = g34::build(w.g); }, &what)) { w.ctx.count("rejected_configs"); return false; }
-  {
-    ExamInfo ex; ex.imaging_modality = ImagingModality::PT;
-    w.b.im->set_exam_info(ex);
-  }
   w.M.reset(new ProjMatrixByBinUsingRayTracing());
   w.M->set_do_symmetry_90degrees_min_phi(w.pc.sym & 1);
   w.M->set_do_symmetry_180degrees_min_phi(w.pc.sym & 2);
@@ -150,13 +145,37 @@ static bool setup_world(World& w)
   w.M->enable_cache(w.pc.cache != 0);
   w.M->store_only_basic_bins_in_cache(w.pc.cache == 2);
   w.pair.reset(new ProjectorByBinPairUsingProjMatrixByBin(w.M));
-  if (small::throws([&] { w.pair->set_up(w.b.pdi, w.b.im); }, &what)) { w.ctx.count("rejected_configs"); w.ctx.observe("pair set_up rejected " + w.g.str() + ": " + what.substr(0, 100)); return false; }
+}
+
+// the projectors of w.pair and the index of the geometry w.b
+static void bind_world(World& w)
+{
   w.fwd = w.pair->get_forward_projector_sptr();
   w.bck = w.pair->get_back_projector_sptr();
   w.bi.reset(new BinIndex(*w.b.pdi));
   w.nb = w.bi->n;
   w.nvox = (size_t)w.b.im->get_z_size() * w.b.im->get_y_size() * w.b.im->get_x_size();
+}
+
+// creates the matrix and the pair of w.pc and sets the pair up (once) with the geometry w.b
+static bool setup_pair(World& w)
+{
+  std::string what;
+  {
+    ExamInfo ex; ex.imaging_modality = ImagingModality::PT;
+    w.b.im->set_exam_info(ex);
+  }
+  new_pair(w);
+  if (small::throws([&] { w.pair->set_up(w.b.pdi, w.b.im); }, &what)) { w.ctx.count("rejected_configs"); w.ctx.observe("pair set_up rejected " + w.g.str() + ": " + what.substr(0, 100)); return false; }
+  bind_world(w);
   return true;
+}
+
+static bool setup_world(World& w)
+{
+  std::string what;
+  if (small::throws([&] { w.b = g34::build(w.g); }, &what)) { w.ctx.count("rejected_configs"); return false; }
+  return setup_pair(w);
 }
 
 // ---------------------------------------------------------------- adjointness on the full basis (also fills the columns / rows)
@@ -598,6 +617,350 @@ static void check_raytracing_subranges(World& w, bool all_ranges)
       }
 }
 
+// ---------------------------------------------------------------- re-used projector objects: histories of set_up calls
+// One pair object (matrix + forward + back projector; cache per pair configuration) and one on-the-fly ray tracing projector are
+// set up several times in a row with different arguments and used after every set_up.  The arguments come from a small alphabet
+// derived from the base geometry: S0 (base), image variants with the SAME projection data object (number of planes, z origin, z voxel
+// size, x/y size, x/y voxel size) and projection data variants with the SAME image object (fewer segments, other span, fewer views,
+// fewer tangential positions).  After every set_up the object must be the projector of the CURRENT arguments:
+//   * all unit images forward projected / all unit data back projected == the results of a new pair set up once with these arguments
+//   * the pair is still adjoint on the full basis, linear on the superposition family, accumulates, (thorough: subsets partition)
+//   * the re-used on-the-fly projector == a new on-the-fly projector, and == the matrix projector (same oracle as for new objects)
+struct RState { std::string name; Geo g; };
+static std::string hist_str(const std::vector<std::string>& h) { std::string s; for (size_t i = 0; i < h.size(); ++i) s += (i ? ">" : "") + h[i]; return s; }
+
+static std::vector<RState> reuse_alphabet(const Geo& gr)
+{
+  std::vector<RState> v;
+  v.push_back({ "S0", gr });
+  { Geo g = gr; g.nz += 2; v.push_back({ "Inz", g }); }                    // number of planes
+  { Geo g = gr; g.oz += 1; v.push_back({ "Ioz", g }); }                    // z origin (whole planes)
+  { Geo g = gr; g.zd = gr.zd == 2 ? 4 : 2; v.push_back({ "Izd", g }); }    // z voxel size (matrix pair only: the on-the-fly projector is compared for zd=2 only)
+  { Geo g = gr; g.nxy += 2; v.push_back({ "Inxy", g }); }                  // x/y size
+  { Geo g = gr; g.vxy = gr.vxy == 100 ? 125 : 100; v.push_back({ "Ivxy", g }); } // x/y voxel size
+  if (gr.md > 0) { Geo g = gr; g.md = 0; v.push_back({ "Pseg", g }); }      // fewer segments
+  { Geo g = gr; g.span = gr.span == 1 ? 3 : 1; v.push_back({ "Pspan", g }); } // other span
+  { Geo g = gr; g.mash *= 2; v.push_back({ "Pviews", g }); }               // fewer views
+  if (gr.tang >= 4) { Geo g = gr; g.tang -= 2; v.push_back({ "Ptang", g }); } // fewer tangential positions
+  return v;
+}
+
+// which arguments differ between two consecutive set_up calls (class of the transition, goes into the violation key)
+static std::string changed_between(const Geo& a, const Geo& b)
+{
+  std::string s;
+  auto add = [&](bool c, const char* n) { if (c) s += (s.empty() ? "" : "+") + std::string(n); };
+  add(a.nz != b.nz || a.oz != b.oz || a.zd != b.zd, "image_z");
+  add(a.nxy != b.nxy || a.vxy != b.vxy, "image_xy");
+  add(a.span != b.span || a.md != b.md, "data_axial");
+  add(a.mash != b.mash || a.tang != b.tang, "data_transaxial");
+  return s.empty() ? "nothing" : s;
+}
+
+struct Fresh
+{
+  World w;
+  bool ok = false, rt_ok = false, rt_cmp = false;
+  bool adopted = false; // a history has continued on the objects of this state (w.M, w.pair, rt): only the results below stay valid
+  shared_ptr<ForwardProjectorByBinUsingRayTracing> rt;
+  std::vector<Vec> rtcols; // columns of a new on-the-fly projector
+  double delta = 0, amax = 0;
+  std::vector<char> screened;
+  Vec rowmax;
+  explicit Fresh(vmc::Ctx& c) : w(c) {}
+};
+
+struct ReuseEnv
+{
+  vmc::Ctx& ctx;
+  Geo gr; PairCfg pc;
+  bool with_rt = true; // re-use histories of the on-the-fly projector (it does not depend on the matrix settings except the FOV flag)
+  std::string kase0, kkey0;
+  std::vector<RState> states;
+  // equal arguments are the SAME objects in all set_up calls of a unit (a shortcut keyed on the pointer or on operator== both see "no change")
+  std::map<std::string, shared_ptr<ProjDataInfo>> pdis;
+  std::map<std::string, shared_ptr<Scanner>> scs;
+  std::map<std::string, shared_ptr<VoxelsOnCartesianGrid<float>>> ims;
+  std::map<std::string, std::unique_ptr<Fresh>> fresh;
+  explicit ReuseEnv(vmc::Ctx& c) : ctx(c) {}
+  bool rt_wanted(const Geo& g) const { return with_rt && pc.L == 1 && g.zd == 2 && !g.tof; }
+
+  bool built(const Geo& g, g34::Built& b)
+  {
+    const std::string pk = vmc::str(g.D) + "," + vmc::str(g.R) + "," + vmc::str(g.span) + "," + vmc::str(g.md) + "," + vmc::str(g.mash) + "," + vmc::str(g.tof) + "," + vmc::str(g.tang) + "," + g.blk;
+    const std::string ik = vmc::str(g.D) + "," + vmc::str(g.R) + "," + vmc::str(g.tof) + "," + vmc::str(g.nz) + "," + vmc::str(g.nxy) + "," + vmc::str(g.vxy) + "," + vmc::str(g.zd) + "," + vmc::str(g.oz) + "," + g.blk;
+    if (!pdis.count(pk) || !ims.count(ik))
+      {
+        g34::Built n;
+        if (small::throws([&] { n = g34::build(g); })) return false;
+        if (!pdis.count(pk)) { pdis[pk] = n.pdi; scs[pk] = n.sc; }
+        if (!ims.count(ik))
+          {
+            ExamInfo ex; ex.imaging_modality = ImagingModality::PT;
+            n.im->set_exam_info(ex);
+            ims[ik] = n.im;
+          }
+      }
+    b.pdi = pdis[pk]; b.sc = scs[pk]; b.im = ims[ik];
+    return true;
+  }
+  const RState* state(const std::string& name) const { for (auto& s : states) if (s.name == name) return &s; return nullptr; }
+};
+
+static bool rt_columns(World& w, ForwardProjectorByBinUsingRayTracing& rt, std::vector<Vec>& cols, std::string& what)
+{
+  cols.assign(w.nvox, Vec());
+  Vec e(w.nvox, 0.0);
+  for (size_t j = 0; j < w.nvox; ++j)
+    {
+      e[j] = 1;
+      auto pd = small::make_projdata(w.b.pdi, 0.F);
+      if (small::throws([&] { rt.forward_project(*pd, *w.image(e)); }, &what)) return false;
+      cols[j] = w.bi->read(*pd);
+      e[j] = 0;
+      w.ctx.count("evaluations");
+    }
+  return true;
+}
+
+// same oracle as check_raytracing_projector: columns of an on-the-fly projector against the columns of the (new) matrix pair f.w
+static void rt_against_matrix(World& wv, const Fresh& f, const std::vector<Vec>& cols)
+{
+  std::set<std::string> reported;
+  for (size_t j = 0; j < f.w.nvox; ++j)
+    for (size_t b = 0; b < f.w.nb; ++b)
+      {
+        if (f.screened[b]) continue;
+        const double tol = 100 * f.delta * f.rowmax[b] + 1e-30;
+        wv.ctx.count("raytracing_elements_compared");
+        if (!(std::fabs(cols[j][b] - f.w.Acol[j][b]) <= tol))
+          {
+            const Bin& bin = f.w.bi->bins[b];
+            const std::string cls = std::string(bin.segment_num() == 0 ? "direct" : "oblique");
+            if (reported.insert(cls).second)
+              wv.viol("raytracing_vs_matrix;segment=" + cls, ";bin=" + small::bin_str(bin) + ";voxel=" + vmc::str(j),
+                      "ForwardProjectorByBinUsingRayTracing gives " + vmc::str(cols[j][b]) + " for unit voxel " + voxel_str(f.w, j) + " in bin " + small::bin_str(bin) + ", the matrix projector gives "
+                          + vmc::str(f.w.Acol[j][b]) + " (row maximum " + vmc::str(f.rowmax[b]) + ")");
+          }
+      }
+}
+
+// results of new objects set up ONCE with the arguments of a state (= the history of length 1)
+static Fresh* fresh_of(ReuseEnv& env, const RState& st)
+{
+  auto it = env.fresh.find(st.name);
+  if (it != env.fresh.end()) return it->second.get();
+  vmc::Ctx& ctx = env.ctx;
+  std::unique_ptr<Fresh>& fp = env.fresh[st.name];
+  fp.reset(new Fresh(ctx));
+  Fresh& f = *fp;
+  f.w.g = st.g; f.w.pc = env.pc;
+  f.w.kase = env.kase0 + ";reuse=" + st.name;
+  f.w.kkey = env.kkey0;
+  if (!env.built(st.g, f.w.b)) { ctx.count("reuse_states_rejected"); return fp.get(); }
+  if (!setup_pair(f.w)) { ctx.count("reuse_states_rejected"); return fp.get(); }
+  f.ok = true;
+  ctx.count("reuse_states_new_objects");
+  check_adjoint(f.w);
+  for (auto& c : f.w.Acol) for (double x : c) f.amax = std::max(f.amax, std::fabs(x));
+  if (env.rt_wanted(st.g))
+    {
+      shared_ptr<ForwardProjectorByBinUsingRayTracing> rt(new ForwardProjectorByBinUsingRayTracing());
+      rt->restrict_to_cylindrical_FOV = env.pc.fov != 0;
+      std::string what;
+      if (small::throws([&] { rt->set_up(f.w.b.pdi, f.w.b.im); }, &what)) { ctx.count("reuse_raytracing_states_rejected"); return fp.get(); }
+      f.rt = rt;
+      if (!rt_columns(f.w, *rt, f.rtcols, what)) { f.w.viol("raytracing_projector_throws", "", what); return fp.get(); }
+      f.rt_ok = true;
+      f.rt_cmp = !rings_on_plane_boundaries(f.w);
+      if (f.rt_cmp)
+        {
+          f.delta = g34::delta_of(*f.w.b.pdi, *f.w.b.im);
+          f.screened.assign(f.w.nb, 0);
+          size_t ns = 0;
+          for (size_t b = 0; b < f.w.nb; ++b) { f.screened[b] = g34::screen(*f.w.b.pdi, *f.w.b.im, f.w.bi->bins[b], 1, env.pc.fov != 0, g34::screen_thr(f.delta)); ns += f.screened[b]; }
+          ctx.count("raytracing_bins_screened", (long long)ns);
+          ctx.count("raytracing_bins", (long long)f.w.nb);
+          f.rowmax.assign(f.w.nb, 0.0);
+          for (size_t b = 0; b < f.w.nb; ++b) for (size_t j = 0; j < f.w.nvox; ++j) f.rowmax[b] = std::max(f.rowmax[b], std::fabs(f.w.ATrow[b][j]));
+          if (st.name != "S0") rt_against_matrix(f.w, f, f.rtcols); // S0 is compared by check_raytracing_projector already
+        }
+      else
+        ctx.count("reuse_raytracing_states_rings_on_plane_boundaries");
+    }
+  return fp.get();
+}
+
+static bool operators_differ(const Fresh& a, const Fresh& b)
+{
+  if (a.w.nb != b.w.nb || a.w.nvox != b.w.nvox) return true;
+  const double tol = 100 * EPS * std::max(a.amax, b.amax);
+  for (size_t j = 0; j < a.w.nvox; ++j) for (size_t k = 0; k < a.w.nb; ++k) if (std::fabs(a.w.Acol[j][k] - b.w.Acol[j][k]) > tol) return true;
+  return false;
+}
+
+static void run_history(ReuseEnv& env, const std::vector<std::string>& hist)
+{
+  vmc::Ctx& ctx = env.ctx;
+  const std::string kase = env.kase0 + ";reuse=" + hist_str(hist);
+  ctx.current(env.kkey0 + ";reused=1", kase);
+  std::vector<const RState*> sts;
+  std::vector<Fresh*> frs;
+  for (auto& n : hist)
+    {
+      const RState* s = env.state(n);
+      if (!s) { ctx.count("reuse_histories_with_state_not_in_alphabet"); return; }
+      Fresh* f = fresh_of(env, *s);
+      if (!f->ok) { ctx.count("reuse_histories_skipped_rejected_state"); return; }
+      sts.push_back(s); frs.push_back(f);
+    }
+  ctx.count("reuse_histories");
+  if (hist.size() == 1) return; // a new object set up once: done in fresh_of
+  World wr(ctx);
+  wr.pc = env.pc;
+  shared_ptr<ForwardProjectorByBinUsingRayTracing> rt;
+  int rtprev = -1;
+  size_t k0 = 0;
+  if (!frs[0]->adopted)
+    { // the new objects of the first state were set up once and used on the full basis: that IS the first step; continue on them
+      frs[0]->adopted = true;
+      wr.M = frs[0]->w.M; wr.pair = frs[0]->w.pair;
+      if (frs[0]->rt_ok) { rt = frs[0]->rt; rtprev = 0; }
+      k0 = 1;
+      ctx.count("reuse_histories_continuing_the_new_objects");
+    }
+  else
+    new_pair(wr);
+  for (size_t k = k0; k < hist.size(); ++k)
+    {
+      const Fresh& f = *frs[k];
+      const std::string changed = k == 0 ? "first_set_up" : changed_between(sts[k - 1]->g, sts[k]->g);
+      wr.g = sts[k]->g; wr.b = f.w.b;
+      wr.kase = kase + ";step=" + vmc::str((int)k);
+      wr.kkey = env.kkey0 + ";reused=1;changed=" + changed;
+      const std::string where = "set_up call " + vmc::str((int)k + 1) + " of the history " + hist_str(hist) + " (arguments " + sts[k]->g.str() + ")";
+      std::string what;
+      if (small::throws([&] { wr.pair->set_up(wr.b.pdi, wr.b.im); }, &what)) { wr.viol("reuse_set_up_throws", "", "pair " + where + " throws, a new pair accepts these arguments: " + what.substr(0, 200)); return; }
+      bind_world(wr);
+      ctx.count("reuse_set_up_calls");
+      if (k > 0)
+        {
+          ctx.count("reuse_re_set_up_calls");
+          ctx.count(operators_differ(*frs[k - 1], f) ? "reuse_re_set_ups_changing_the_operator" : "reuse_re_set_ups_not_changing_the_operator");
+        }
+      check_adjoint(wr); // uses the object: fills wr.Acol / wr.ATrow (and the cache of the matrix); the pair must still be adjoint
+      {
+        const double tol = 100 * EPS * f.amax + 1e-30;
+        bool badf = false, badb = false;
+        for (size_t j = 0; j < wr.nvox && !badf; ++j)
+          for (size_t b = 0; b < wr.nb; ++b)
+            if (!(std::fabs(wr.Acol[j][b] - f.w.Acol[j][b]) <= tol))
+              {
+                badf = true;
+                wr.viol("reuse_forward_differs_from_new_projector", ";bin=" + small::bin_str(wr.bi->bins[b]) + ";voxel=" + vmc::str(j),
+                        "forward projector (matrix) after " + where + ": unit voxel " + voxel_str(wr, j) + " gives " + vmc::str(wr.Acol[j][b]) + " in bin " + small::bin_str(wr.bi->bins[b])
+                            + ", a new projector set up once with the same arguments gives " + vmc::str(f.w.Acol[j][b]));
+                break;
+              }
+        for (size_t b = 0; b < wr.nb && !badb; ++b)
+          for (size_t j = 0; j < wr.nvox; ++j)
+            if (!(std::fabs(wr.ATrow[b][j] - f.w.ATrow[b][j]) <= tol))
+              {
+                badb = true;
+                wr.viol("reuse_back_differs_from_new_projector", ";bin=" + small::bin_str(wr.bi->bins[b]) + ";voxel=" + vmc::str(j),
+                        "back projector (matrix) after " + where + ": unit bin " + small::bin_str(wr.bi->bins[b]) + " gives " + vmc::str(wr.ATrow[b][j]) + " in voxel " + voxel_str(wr, j)
+                            + ", a new projector set up once with the same arguments gives " + vmc::str(f.w.ATrow[b][j]));
+                break;
+              }
+        ctx.count("reuse_elements_compared_with_new_projector", (long long)(2 * wr.nb * wr.nvox));
+      }
+      if (k > 0)
+        {
+          check_linear(wr);
+          check_accumulate(wr);
+          if (ctx.thorough()) check_subsets(wr);
+        }
+      // the on-the-fly projector is set up with the states it is compared for (zd = 2, accepted by a new object); others are not shown to it
+      if (f.rt_ok)
+        {
+          if (!rt) { rt.reset(new ForwardProjectorByBinUsingRayTracing()); rt->restrict_to_cylindrical_FOV = env.pc.fov != 0; }
+          const std::string rtchanged = rtprev < 0 ? "first_set_up" : changed_between(sts[rtprev]->g, sts[k]->g);
+          wr.kkey = env.kkey0 + ";reused=1;changed=" + rtchanged;
+          if (small::throws([&] { rt->set_up(wr.b.pdi, wr.b.im); }, &what))
+            { wr.viol("reuse_raytracing_set_up_throws", "", "ForwardProjectorByBinUsingRayTracing " + where + " throws, a new projector accepts these arguments: " + what.substr(0, 200)); return; }
+          ctx.count("reuse_raytracing_set_up_calls");
+          if (rtprev >= 0) ctx.count("reuse_raytracing_re_set_up_calls");
+          rtprev = (int)k;
+          std::vector<Vec> cols;
+          if (!rt_columns(wr, *rt, cols, what)) { wr.viol("reuse_raytracing_projector_throws", "", "ForwardProjectorByBinUsingRayTracing after " + where + ": " + what.substr(0, 200)); return; }
+          double rmax = 0;
+          for (auto& c : f.rtcols) for (double x : c) rmax = std::max(rmax, std::fabs(x));
+          const double tol = 100 * EPS * rmax + 1e-30;
+          bool bad = false;
+          for (size_t j = 0; j < wr.nvox && !bad; ++j)
+            for (size_t b = 0; b < wr.nb; ++b)
+              if (!(std::fabs(cols[j][b] - f.rtcols[j][b]) <= tol))
+                {
+                  bad = true;
+                  wr.viol("reuse_raytracing_forward_differs_from_new_projector", ";bin=" + small::bin_str(wr.bi->bins[b]) + ";voxel=" + vmc::str(j),
+                          "ForwardProjectorByBinUsingRayTracing after " + where + ": unit voxel " + voxel_str(wr, j) + " gives " + vmc::str(cols[j][b]) + " in bin " + small::bin_str(wr.bi->bins[b])
+                              + ", a new projector set up once with the same arguments gives " + vmc::str(f.rtcols[j][b]));
+                  break;
+                }
+          ctx.count("reuse_elements_compared_with_new_projector", (long long)(wr.nb * wr.nvox));
+          if (f.rt_cmp) rt_against_matrix(wr, f, cols);
+        }
+    }
+  if (ctx.samples.size() < 6)
+    ctx.sample("re-used objects, history " + hist_str(hist) + " of " + env.gr.str() + " " + env.pc.str() + ": after every set_up all unit projections compared with new objects");
+}
+
+// one work unit: the histories given (names of the alphabet) on the base geometry g and pair configuration pc
+static void run_reuse_unit(vmc::Ctx& ctx, const Geo& g, const PairCfg& pc, bool with_rt, const std::vector<std::vector<std::string>>& hists)
+{
+  ReuseEnv env(ctx);
+  env.pc = pc; env.with_rt = with_rt;
+  env.kase0 = g.str() + ";" + pc.str() + ";rt=" + vmc::str((int)with_rt);
+  env.kkey0 = "pair=matrix_raytracing;" + pc.key() + ";tof=" + vmc::str(g.tof) + (g.blk.empty() ? "" : ";geom=blocks");
+  ctx.current(env.kkey0 + ";reused=1", env.kase0 + ";reuse=S0");
+  g34::Built b0;
+  if (small::throws([&] { b0 = g34::build(g); })) { ctx.count("rejected_configs"); return; }
+  // the base geometry with the defaulted sizes written out (same objects), such that one coordinate can be varied at a time
+  env.gr = g;
+  env.gr.nz = b0.im->get_z_size(); env.gr.nxy = b0.im->get_x_size(); env.gr.tang = b0.pdi->get_num_tangential_poss();
+  if (env.gr.md < 0) env.gr.md = g.R - 1;
+  {
+    g34::Built b1;
+    if (small::throws([&] { b1 = g34::build(env.gr); }) || !(*b1.pdi == *b0.pdi) || !b1.im->has_same_characteristics(*b0.im))
+      { ctx.count("reuse_base_not_reproduced"); ctx.observe("re-use histories: explicit sizes do not reproduce the base geometry " + g.str()); return; }
+  }
+  env.states = reuse_alphabet(env.gr);
+  for (auto& h : hists)
+    {
+      if (ctx.expired()) break;
+      run_history(env, h);
+    }
+}
+
+// the histories of a tier, grouped into work units
+static std::vector<std::vector<std::vector<std::string>>> reuse_units(const Geo& g, bool th)
+{
+  // names only; variants that do not exist for a geometry (Pseg for 1 ring, Ptang for < 4 positions) are counted at run time
+  const std::vector<std::string> V = { "Inz", "Ioz", "Izd", "Inxy", "Ivxy", "Pseg", "Pspan", "Pviews", "Ptang" };
+  std::vector<std::vector<std::vector<std::string>>> u;
+  u.push_back({ { "S0", "S0" } }); // set_up again with the same arguments
+  for (auto& v : V)
+    { // S0 -> v -> S0: both orders and back again; thorough: also starting from the variant
+      if (th) u.push_back({ { "S0", v, "S0" }, { v, "S0", v } });
+      else u.push_back({ { "S0", v, "S0" } });
+    }
+  if (th)
+    for (size_t a = 0; a < V.size(); ++a)
+      for (size_t b = a + 1; b < V.size(); ++b) u.push_back({ { V[a], V[b], V[a] }, { V[b], V[a], V[b] } }); // image change <-> data change, two image / two data changes
+  (void)g;
+  return u;
+}
+
 // ---------------------------------------------------------------- one case
 static void run_case(vmc::Ctx& ctx, const Geo& g, const PairCfg& pc, bool all_ranges, bool with_rt)
 {
@@ -636,7 +999,8 @@ int main(int argc, char** argv)
       auto m = vmc::kv(ctx.replay);
       Geo g = Geo::parse(m);
       PairCfg pc; pc.sym = atoi(m["sym"].c_str()); pc.cache = atoi(m["cache"].c_str()); pc.L = atoi(m["L"].c_str()); pc.fov = atoi(m["fov"].c_str());
-      run_case(ctx, g, pc, atoi(m["ar"].c_str()) != 0, atoi(m["rt"].c_str()) != 0);
+      if (m.count("reuse")) run_reuse_unit(ctx, g, pc, atoi(m["rt"].c_str()) != 0, { vmc::split(m["reuse"], '>') });
+      else run_case(ctx, g, pc, atoi(m["ar"].c_str()) != 0, atoi(m["rt"].c_str()) != 0);
       return ctx.finish();
     }
   auto G = [](int D, int R, int span, int mash, int tof, int nz, int nxy, int vxy, int zd, int oz, const char* blk = "") {
@@ -678,6 +1042,23 @@ int main(int argc, char** argv)
           run_case(ctx, g, pc, all_ranges, with_rt);
         }
       ++gi;
+    }
+  // re-used projector objects: histories of set_up calls (work unit = base geometry x pair configuration x group of histories)
+  for (const Geo& g : geos)
+    {
+      std::set<int> fov_done;
+      for (const PairCfg& pc : pcs)
+        {
+          // the on-the-fly projector: once per FOV flag (first pair configuration with one ray per bin and that flag)
+          const bool with_rt = pc.L == 1 && fov_done.insert(pc.fov).second;
+          if (!th && pc.cache == 0 && pc.sym == 0) continue; // quick: one of the two configurations without cache (the one with symmetries)
+          for (auto& hists : reuse_units(g, th))
+            {
+              if (!ctx.mine(unit++)) continue;
+              if (ctx.expired()) break;
+              run_reuse_unit(ctx, g, pc, with_rt, hists);
+            }
+        }
     }
   return ctx.finish();
 }
